@@ -152,11 +152,12 @@ h("VerifTempfileCreate", "./utils/tempfile", ["zz_verif_tempfile.go"], "four gen
 CF = "./config"
 CFF = ["zz_verif_config.go"]
 h("VerifFlagsYamlAgree", CF, ["zz_verif_frontends.go"], "one set of explicit settings (sizes, limits, uploader counts, timeouts symbolic; booleans symbolic; storage mode, zstd implementation, log settings, listener addresses in modern or deprecated host/port form from small fixed sets; no TLS/auth/backend settings) given as flags and as a YAML document; urfave/cli and yaml.v3 replaced by identity models", "flags and YAML yield the same verdict and the same effective configuration (basic fields), including the deprecated host/port forms", strings=True)
-h("VerifValidateConfigRefuses", CF, CFF, "12 invalid classes, one at a time; the settings of the class arbitrary within it, the sizes, the TLS/htpasswd file settings and allow_unauthenticated_reads arbitrary, the remaining settings fixed valid values", "validateConfig returns an error for every completion of the other settings", strings=True)
+h("VerifValidateConfigRefuses", CF, CFF, "14 invalid classes, one at a time; the settings of the class arbitrary within it, the sizes, the TLS/htpasswd file settings and allow_unauthenticated_reads arbitrary, the remaining settings fixed valid values", "validateConfig returns an error for every completion of the other settings", strings=True)
 h("VerifValidateConfigAccepts", CF, CFF, "-", "a minimal sane configuration is accepted; the same with a port conflict is refused", strings=True)
 
 ACH = ["zz_verif_ac.go"]
 h("VerifUpdateActionResult", SV, ACH, "UpdateActionResult with one of 13 defect classes or none; inline stdout / output-file contents of symbolic length 1..4 MiB with or without digest; worker name given or not; every cache Put succeeds", "an invalid ActionResult is refused and stores nothing; an accepted one is stored once under its key as the serialisation of the uploaded message (worker filled in), inline bytes also stored in the CAS under their digest", unwind=16)
+h("VerifUpdateActionResultKey", SV, ACH, "key mangling on; seven client hash strings (one well formed; prefixed, truncated, non-hex, empty, over-long), three instance names", "UpdateActionResult validates the hash before mangling: malformed keys are refused and store nothing, well-formed ones are stored under TransformActionCacheKey(hash, instance)", unwind=16)
 h("VerifGetActionResultInline", SV, ACH, "stored result with stdout and one output file, each inline (1..4 MiB symbolic) or by digest (1..4 MiB symbolic, blob available); inline_stdout / inline_output_files requested or not; de-inlining Puts succeed", "GetActionResult: total inlined bytes <= 3 MiB budget, inlined bytes are the blob / the stored bytes, de-inlined only after storing under the true digest", unwind=16)
 h("VerifGetActionResultMiss", SV, ACH, "-", "validated miss maps to NotFound; nil request / digest rejected")
 
@@ -184,7 +185,7 @@ P = {
          ["VerifLRUAdd4", "VerifLRUReserve4", "VerifPutCasZstd", "VerifPutCasRaw", "VerifGetCasZstd", "VerifProxyGetCasRaw"], [FSM, CODEC, HASH], ["more live entries than the bound in one step", "sizes >= 2^61", "interleavings (C07)"]),
  "C04": (["VerifPutCasRaw", "VerifPutAC", "VerifGetAC", "VerifGetCasRaw", "VerifProxyGetAC", "VerifProxyGetCasZstd", "VerifLRUAdd3", "VerifLRURemove", "VerifTempfileCreate"],
          ["VerifPutCasZstd", "VerifPutCasZstdProxy", "VerifGetCasZstd", "VerifProxyGetCasRaw", "VerifProxyGetCasZstd"], [FSM, CODEC, HASH], ["files created by anything other than bazel-remote", "directory fsync"]),
- "C05": (["VerifLRUAdd3", "VerifLRUReserve3", "VerifLRUGet", "VerifGetAC", "VerifContains", "VerifFindMissing3"], ["VerifLRUAdd4", "VerifLRUReserve4", "VerifGetCasZstd", "VerifGetCasRaw"], [FSM], ["atime order after restart (C09)", "more live entries than the bound"]),
+ "C05": (["VerifLRUAdd3", "VerifLRUReserve3", "VerifLRUGet", "VerifGetAC", "VerifContains", "VerifFindMissing3", "VerifProxyGetAC"], ["VerifLRUAdd4", "VerifLRUReserve4", "VerifGetCasZstd", "VerifGetCasRaw"], [FSM], ["atime order after restart (C09)", "more live entries than the bound"]),
  "C06": (["VerifValidatedAC", "VerifValidatedACMixed", "VerifValidatedACDir", "VerifValidatedACProxy", "VerifGetActionResultMiss"], ["VerifValidatedAC2"], [FSM, "proto.Unmarshal by identity: stored bytes decode to the registered message"], ["real protobuf decoding", "races between the check and a concurrent eviction"]),
  "C07": (["VerifConcReadersCorrupt", "VerifConcReadOverwrite", "VerifConcReadOverwriteEvict", "VerifConcPutPut", "VerifConcCorruptReadPut", "VerifFindMissingProxy1", "VerifFindMissingBatchProxy", "VerifBytestreamWrite2"], ["VerifConcPutPutDeep", "VerifConcReadOverwriteDeep", "VerifValidatedACProxy"], [FSM, HASH, CODEC, "sequentially consistent interleaving of goroutines at the scheduling points (mutex acquisition, file-system step, channel operation, go statement); a blocked goroutine hands over round-robin"],
          ["data races on the abstract byte objects and inside the environment models (the happens-before obligations cover pointer loads/stores and map operations of repository and dependency code; weak-memory effects are not modelled)", "more than three goroutines per scenario, more preemptions than the bound, round-robin hand-over at blocking points", "evictions under space pressure and backend fetches racing with requests", "handlers above the disk layer other than ByteStream.Write and the FindMissing/validated-AC worker pool"]),
@@ -195,12 +196,12 @@ P = {
  "C12": (["VerifProxyGetAC", "VerifProxyGetCasRaw", "VerifProxyGetCasZstd", "VerifProxyGetCasZstdShort", "VerifPutRawProxy"], ["VerifProxyGetCasZstdZ", "VerifPutCasZstdProxy", "VerifPutCasRawProxy"], [FSM, CODEC, HASH, "the backend is an arbitrary cache.Proxy stub"], ["minio/azure/gcs SDK calls", "real HTTP body semantics"]),
  "C13": (["VerifGrpcBasicAuth", "VerifGrpcBasicAuthAccepts", "VerifGrpcMTLS", "VerifHTTPAuthWiring", "VerifHTTPClientCert"], [], ["auth.CheckSecret is an arbitrary predicate", "strings are ASCII"], ["htpasswd hash checking, TLS handshake and certificate verification, LDAP", "whether grpc-go calls the interceptors for every method"]),
  "C14": (["VerifReadArbitrary2", "VerifReadZstd4", "VerifReadUncompressed4", "VerifGetCasZstd", "VerifGetSpecial", "VerifGetTree", "VerifBatchReadBlobs", "VerifBytestreamWrite2", "VerifFindMissingProxy1", "VerifValidatedACProxy", "VerifSpliceBlob", "VerifFetchBlob"], ["VerifReadArbitrary3", "VerifGetCasZstdAsZstd", "VerifGetCasRawAsZstd", "VerifProxyGetCasZstd"], [FSM, CODEC], ["panics inside stubbed libraries", "resource exhaustion by volume"]),
- "C15": (["VerifGrpcACKeyMangling", "VerifLookupKey", "VerifGetSpecial", "VerifHTTPGet", "VerifHTTPInstanceName"], [], ["sha256 is injective on byte strings (digest texts are fresh 64-hex strings with pairwise (content equal <=> digest equal))", "strings are ASCII", "disk.Cache replaced by a recording stub"], ["sha256 itself", "non-ASCII instance names", "isolation after eviction (C03/C04)", "the HTTP path-prefix clause: harnesses VerifParseRequestURL / VerifHTTPGrpcSameKey exist but no solver decides 'every URL /I/ac/h matches ^/?(.*/)?(ac/|cas/)([a-f0-9]{64})$ with instance I' within budget (cvc5 and z3 time out at 60 s even with |I| <= 6), so the URL grammar is not claimed"]),
+ "C15": (["VerifGrpcACKeyMangling", "VerifLookupKey", "VerifGetSpecial", "VerifHTTPGet", "VerifHTTPInstanceName", "VerifUpdateActionResultKey"], [], ["sha256 is injective on byte strings (digest texts are fresh 64-hex strings with pairwise (content equal <=> digest equal))", "strings are ASCII", "disk.Cache replaced by a recording stub"], ["sha256 itself", "non-ASCII instance names", "isolation after eviction (C03/C04)", "the HTTP path-prefix clause: harnesses VerifParseRequestURL / VerifHTTPGrpcSameKey exist but no solver decides 'every URL /I/ac/h matches ^/?(.*/)?(ac/|cas/)([a-f0-9]{64})$ with instance I' within budget (cvc5 and z3 time out at 60 s even with |I| <= 6), so the URL grammar is not claimed"]),
  "C16": (["VerifBytestreamWrite2", "VerifBytestreamWriteZstd2", "VerifQueryWriteStatus"], ["VerifBytestreamWrite3"], ["disk.Cache replaced by a contract stub (Put consumes the reader and accepts exactly the declared bytes)"], ["grpc-go's own stream behaviour", "more than 3 messages", "more than 2 preemptive context switches"]),
  "C17": (["VerifLRUReserve3", "VerifLRURemove", "VerifLRUAdd3", "VerifPutAC", "VerifProxyGetAC"], ["VerifLRUReserve4", "VerifPutCasZstd", "VerifPutCasRaw", "VerifProxyGetCasRaw"], [FSM], ["real unlink latency"]),
  "C18": (["VerifPutAC", "VerifPutCasRaw", "VerifContains", "VerifProxyGetAC", "VerifBatchUpdateBlobs", "VerifBytestreamWrite2", "VerifHTTPPut", "VerifFindMissingBatchProxy", "VerifSpliceBlob", "VerifFetchBlob"], ["VerifPutCasZstd", "VerifProxyGetCasRaw", "VerifProxyGetCasZstd"], [FSM, HASH], ["transport-level message size limits"]),
  "C19": (["VerifValidateConfigRefuses", "VerifValidateConfigAccepts", "VerifFlagsYamlAgree"], [], ["net.SplitHostPort modelled by its contract (host:port / [host]:port)", "strings are ASCII"], ["the flags-versus-YAML agreement clause (urfave/cli and yaml.v3 are outside reach; F13/F14 candidates of DESIGN section 1 are not decided)", "environment-variable resolution", "setTLSConfig / setProxy / setLogger"]),
- "C20": (["VerifWriteZstd2", "VerifReadUncompressed4", "VerifReadZstd4", "VerifReadIdentity", "VerifGetCasRawInZstdMode", "VerifGetCasZstdInRawMode"], ["VerifWriteZstd3", "VerifReadUncompressed6", "VerifReadZstd6", "VerifGetCasRawInZstdModeAsZstd", "VerifGetCasZstdInRawModeAsZstd"], [CODEC, FSM], ["that chunk payloads are standard zstd frames", "files with more table entries than the bound"]),
+ "C20": (["VerifWriteZstd2", "VerifReadUncompressed4", "VerifReadZstd4", "VerifReadIdentity", "VerifGetCasRawInZstdMode", "VerifGetCasZstdInRawMode", "VerifProxyGetCasZstd"], ["VerifWriteZstd3", "VerifReadUncompressed6", "VerifReadZstd6", "VerifGetCasRawInZstdModeAsZstd", "VerifGetCasZstdInRawModeAsZstd"], [CODEC, FSM], ["that chunk payloads are standard zstd frames", "files with more table entries than the bound"]),
 }
 
 # witnesses that only some variants of a shared harness body can reach
